@@ -154,27 +154,46 @@ def run(ctx, build):
     if ctx.widen:
         nvol *= 2
     for i in range(nvol):
+        top = False
         if i % 12 == 11:
             g = true_size_geometry(rng, rng.choice(['fat12', 'fat16']))
+        elif i % 12 == 5 or (ctx.thorough and i == 7):
+            # (nearly) the largest volume of its type, allocated from the TOP: the highest cluster numbers overlap the values
+            # that are reserved on smaller volumes (0xFF0..0xFF5 on FAT12, 0xFFF0..0xFFF5 on FAT16) and are still links
+            top = True
+            if ctx.thorough and i == 7:
+                g = fatimg.Geometry('fat16', rng.choice([65519, 65524]), spc=1, bps=512, nfats=1, root_entries=16, type_string=False, fsinfo=False)
+            else:
+                g = fatimg.Geometry('fat12', rng.choice([4078, 4079, 4080, 4084]), spc=1, bps=512, nfats=rng.choice([1, 2]), root_entries=16,
+                                    type_string=rng.random() < 0.5, fsinfo=False)
         else:
             g = rand_geometry(rng, ctx.thorough)
-        b = fatimg.Builder(g, rng, fragment=rng.random() < 0.5)
+        b = fatimg.Builder(g, rng, fragment=(not top) and rng.random() < 0.5)
+        if top:
+            b.free = list(reversed(b.free))
         n = populate(rng, b, rng.choice([3, 10, 25, 60]))
         img = bytes(b.img)
         exp = expected_tree(b.tree)
-        geom, spec = fatspec.spec_abs(R, img)
-        ctx.case(hashlib.sha1(img).digest(), n >= 3, g.fat_type)
-        info = dict(geometry={k: v for k, v in vars(g).items()}, image=img if len(img) < 40000 else None, n_entries=n)
-        if spec is None:
+        info = dict(geometry={k: v for k, v in vars(g).items()}, image=img if len(img) < 40000 else None, n_entries=n, allocated_from_the_top=top)
+        if len(img) > 3_000_000:
+            # too big for the list-based specification reader: what was written vs what nobodd reads
+            geom, spec = None, 'skipped'
+        else:
+            geom, spec = fatspec.spec_abs(R, img)
+        ctx.case(hashlib.sha1(img[:200000]).digest() + bytes([top]), n >= 3, g.fat_type + ('-top' if top else ''))
+        if spec == 'skipped':
+            pass
+        elif spec is None:
             ctx.violation('spec/unreadable', f'Coq specification reader rejects a volume written by the harness ({g.fat_type})', info)
             continue
-        sp = fatspec.canon_tree(spec)
-        d = first_diff(exp, sp)
-        if d:
-            ctx.violation('spec/differs-from-writer', f'specification reader disagrees with what was written: {d}', info)
-            continue
-        if geom['bits'] != g.bits or geom['count'] != g.n_clusters or geom['data_off'] != g.data_off or geom['fat_off'] != g.fat_off:
-            ctx.violation('spec/geometry', f'specification geometry {geom} differs from the formatter', info)
+        if spec != 'skipped':
+            sp = fatspec.canon_tree(spec)
+            d = first_diff(exp, sp)
+            if d:
+                ctx.violation('spec/differs-from-writer', f'specification reader disagrees with what was written: {d}', info)
+                continue
+            if geom['bits'] != g.bits or geom['count'] != g.n_clusters or geom['data_off'] != g.data_off or geom['fat_off'] != g.fat_off:
+                ctx.violation('spec/geometry', f'specification geometry {geom} differs from the formatter', info)
         mem = bytearray(img)
         try:
             with lib.time_limit(90, 'reading one volume through the path API'), warnings.catch_warnings():
